@@ -32,7 +32,6 @@ func init() {
 	})
 }
 
-
 func runC15(c *Ctx, idx int, o *Obs) {
 	r := c.Rng("C15", idx)
 	n := gen.Size(r, 3, 60)
